@@ -14,13 +14,13 @@ Definition reviewed : list (string * string * string * string * string) := [
      "not-hash: a slice of identifiers");
   ("formatter/src/formatter.rs", "format_scoped_identifier", "for:scopes", "ordered",
      "not-hash: a slice of identifiers");
-  ("ir/src/ir_module.rs", "assign_api_bindings", "for:inline_size", "sorted",
+  ("ir/src/ir_module.rs", "assign_api_bindings", "for:inline_size", "sorted inline_constant_buffers.sort()",
      "sorted: C07_pair_sort (inline_constant_buffers.sort())");
   ("ir/src/name_generator.rs", "build", "for:&scopes", "into-set",
      "scopes: C07_name_scopes");
-  ("ir/src/name_generator.rs", "build", "arg:scope.1.iter()", "sorted",
+  ("ir/src/name_generator.rs", "build", "arg:scope.1.iter()", "sorted name_to_symbol_vec.sort_by(|l,r|String::cmp(l.0,r.0))",
      "sorted: C07_scope_names (names of one scope)");
-  ("ir/src/name_generator.rs", "build", "scope.1.iter(", "sorted",
+  ("ir/src/name_generator.rs", "build", "scope.1.iter(", "sorted name_to_symbol_vec.sort_by(|l,r|String::cmp(l.0,r.0))",
      "sorted: C07_scope_names (names of one scope)");
   ("ir/src/name_generator.rs", "build", "for:symbols", "into-set",
      "not-hash: a Vec of symbols");
@@ -30,15 +30,15 @@ Definition reviewed : list (string * string * string * string * string) := [
      "set: elements only go into another set");
   ("ir/src/usage_analysis.rs", "recurse", "arg:&self.0.get(other).unwrap().required", "into-set",
      "set: elements only go into another set");
-  ("msl/src/generator.rs", "analyse_globals", "for:global_usage.get_usage_for_function(id)", "sorted",
+  ("msl/src/generator.rs", "analyse_globals", "for:global_usage.get_usage_for_function(id)", "sorted required_globals.sort()",
      "sorted: C07_sort (required_globals.sort(), derived total order)");
   ("msl/src/generator.rs", "generate_function_inner", "for:&decl.scope_block.0", "collected-unsorted",
      "not-hash: the statements of a block");
   ("msl/src/generator.rs", "metal_lib_identifier_complex", "arg:names", "into-set",
      "not-hash: a slice of names");
-  ("msl/src/generator/intrinsic_helpers.rs", "generate_helpers", "arg:required_helpers", "sorted",
+  ("msl/src/generator/intrinsic_helpers.rs", "generate_helpers", "arg:required_helpers", "sorted objects.sort_by(|(key_lhs,_),(key_rhs,_)|std::cmp::Ord::cmp(key_lhs,key_rhs))",
      "sorted: C07_sort (objects.sort_by / ordered.sort(), derived total orders on distinct elements)");
-  ("msl/src/generator/intrinsic_helpers.rs", "generate_helpers", "arg:helpers", "sorted",
+  ("msl/src/generator/intrinsic_helpers.rs", "generate_helpers", "arg:helpers", "sorted ordered.sort()",
      "sorted: C07_sort (objects.sort_by / ordered.sort(), derived total orders on distinct elements)");
   ("msl/src/generator/pipeline.rs", "generate_pipeline", "for:&mutbinding_layout.0", "reduce",
      "not-hash: BindingLayout / ArgumentBuffer wrap a Vec");
